@@ -1,3 +1,17 @@
-From Coq Require Import List.
-Theorem placeholder_c13 : True. Proof. exact I. Qed.
-Print Assumptions placeholder_c13.
+(* C13 - DSL operators and rewrite helpers are identities of probability calculus. *)
+From Coq Require Import List Bool.
+From Y0 Require Import Base.ListSet Dsl.Syntax Dsl.Build Dsl.Canon Proofs.DslP.
+Import ListNotations.
+
+(* Proved so far: the chain-rule expansion yields only single-child conditional factors, for every joint or
+   conditional probability, every ordering and both reorder modes. The semantic identities are checked on every
+   run by the exact-arithmetic oracle; their proofs need Dsl/Sem.v (planned). *)
+Theorem C13_chain_expansion_yields_single_child_factors pop ch pa reorder ordering :
+  ch <> [] ->
+  match chain_expand (EProb pop ch pa) reorder ordering with
+  | EErr _ => True
+  | r => has_markov_postcondition r = Some true
+  end.
+Proof. exact (chain_expand_single_children pop ch pa reorder ordering). Qed.
+
+Print Assumptions C13_chain_expansion_yields_single_child_factors.
